@@ -413,8 +413,8 @@ pub fn c09(ctx: &mut Ctx) {
             check_parse(ctx, "d", &wrapped, &ed);
         }
     }
-    // ---------------- DEEP structures (nothing above nests more than a dozen levels): parentheses nested 255/256/257/300 deep
-    // in both notations, a Classic variable referring to a binder 255/256/257/300 levels up, and 255–300 distinct free names
+    // ---------------- DEEP structures (nothing above nests more than a dozen levels): parentheses nested 254/255/256/257/300/600 deep
+    // in both notations, a Classic variable referring to a binder that many levels up, and that many distinct free names
     for n in [254usize, 255, 256, 257, 300, 600] {
         // right-nested applications 1(1(1(…))) : n opening parentheses
         let mut t = Var(1);
